@@ -10,7 +10,9 @@ ENDINGS = [None, "-", "+", " "]
 
 def section(rng, kind, ending):
     f = M.gen_file(rng, kind=kind, ending=ending)
-    return f["lines"]
+    # `git log -p`: a section may be the first of a commit (the commit lines then close the previous section)
+    pre = M.gen_commit(rng) if rng.random() < 0.3 else []
+    return pre + f["lines"]
 
 
 def run(ctx, rep):
